@@ -477,13 +477,15 @@ def respell(q, ctx, rng, lang='py'):
             elif r < 0.8:
                 out.append('\n' + ' ' * rng.randrange(0, 3))
             else:
-                out.append('\n%s comment: select * from x where y order by z\n  ' % cmt)
+                # comment lines are not query text: whatever they say - clauses, variables of columns that do not exist, quotes - changes nothing
+                out.append('\n%s %s\n  ' % (cmt, rng.choice(['comment: select * from x where y order by z', 'where a.cost > 4 and b.nosuch == a.k.a', 'see a.csv / b.csv, a["gone"], b[\'x\']',
+                                                           'it\'s "quoted', 'a1 = 5, a77, NR, limit 1', 'join c on a1 == c1', ''])))
         out.append(p)
     s = ''.join(out)
     if q.get('with'):
         s += ' ' * rng.randrange(1, 3) + rng.choice(['WITH', 'with', 'With']) + rng.choice([' ', '']) + '(%s)' % q['with']
     if rng.random() < 0.3:
-        s = '%s leading comment\n' % cmt + s
+        s = '%s %s\n' % (cmt, rng.choice(['leading comment', 'select a.none, b.gone', 'update a9 = "x'])) + s
     if rng.random() < 0.3:
         s = '  ' + s
     if rng.random() < 0.2:
